@@ -31,8 +31,15 @@ func root() string {
 	return "/verif"
 }
 
-func ServerPath() string { return filepath.Join(root(), ".work", "univers-server") }
-func PlainPath() string  { return filepath.Join(root(), ".work", "univers") }
+func binDir() string {
+	if b := os.Getenv("VERIF_BIN"); b != "" {
+		return b
+	}
+	return filepath.Join(root(), ".work")
+}
+
+func ServerPath() string { return filepath.Join(binDir(), "univers-server") }
+func PlainPath() string  { return filepath.Join(binDir(), "univers") }
 
 // Start launches the server binary.
 func Start() (*Server, error) {
